@@ -108,7 +108,7 @@ fn plan_base(prop: &str, tier: &str, h: &dyn Fn(u32, u32) -> PartPlan) -> Vec<Pa
         "C17" => vec![if t { pp("kv", 16, 16000 / 16) } else { pp("kv", 16, 1600 / 16) }, if t { pp("replica", 16, 4800 / 16) } else { pp("replica", 16, 320 / 16) }],
         "C18" => {
             // every shrink step costs 8-26 child processes: cap the number of shrink iterations
-            let mut p = if t { pp("configs", 16, 16000 / 16) } else { pp("configs", 16, 1600 / 16) };
+            let mut p = if t { pp("configs", 16, 6400 / 16) } else { pp("configs", 16, 1600 / 16) };
             p.env = vec![("VERIF_MAX_SHRINK".to_string(), "120".to_string())];
             vec![p]
         }
